@@ -19,6 +19,13 @@ from vlib import InfraError
 LEVEL = "model_checking"
 
 
+def _units(t):
+    if t["op"] == "atom":
+        a = t["a"]
+        return {("%s%s" % (a["u"], "+" if a["c"] < 0 else "-"))} if a["k"] == "R" else set()
+    return _units(t["l"]) | (_units(t["r"]) if t.get("r") else set())
+
+
 def run(ctx):
     quick = ctx.quick()
     cfg = "Prune_Gen_small.cfg" if quick else "Prune_Gen_large.cfg"
@@ -58,7 +65,9 @@ def run(ctx):
         # mechanisms the pre-fix pruner would add (repaired findings) form their own groups, so that a
         # regression of a repaired mechanism is always executed
         aw = sorted({l["why"] for c in q["cases"] for l in c["lostaw"]} - set(q["labels"]))
-        groups.setdefault((q["w"], tuple(sorted(q["labels"])), q["found"], tuple(aw)), []).append(q)
+        # interval-unit classes of the NOW()-relative atoms are part of the key: calendar units (months) must be
+        # executed even when the model predicts no loss for them
+        groups.setdefault((q["w"], tuple(sorted(q["labels"])), q["found"], tuple(aw), tuple(sorted(_units(q["tree"])))), []).append(q)
     for g in groups.values():
         rnd.shuffle(g)
     budget = 360 if quick else 3000
